@@ -19,7 +19,9 @@ const c02ArgsSDL = `type Query {
   mix(s: String!, n: Int, f: Float): String
   size(unit: String!, n: Int): Int
   dflt(s: String = "World", n: Int = 2): String
-}`
+  pick(c: Color, s: String): String
+}
+enum Color { RED GREEN BLUE }`
 
 // reflection root: Go methods with the natural parameter types
 type c02ReflectArgs struct {
@@ -40,6 +42,9 @@ func (*c02ReflectArgs) Opt(s string, n int32, ok bool) string {
 // arguments with defaults in the schema: whatever the library does with the default of an argument that is left
 // out (it hands nothing on: the zero value), every strategy sees the same
 func (*c02ReflectArgs) Dflt(s string, n int32) string { return fmt.Sprintf("dflt %q %d", s, n) }
+
+// an enum argument: the natural Go parameter for it is a string
+func (*c02ReflectArgs) Pick(c string, s string) string { return fmt.Sprintf("pick %s %q", c, s) }
 func (*c02ReflectArgs) Mix(s string, n int32, f float32) string {
 	return fmt.Sprintf("mix %q %d %v", s, n, f)
 }
@@ -71,6 +76,16 @@ func (r *c02ResolverArgs) Resolve(f *ggql.Field, args map[string]interface{}) (i
 		return fmt.Sprintf("opt %q %d %v", str, n, ok), nil
 	case "size":
 		return int32(3), nil
+	case "pick":
+		c := ""
+		switch t := args["c"].(type) {
+		case ggql.Symbol:
+			c = string(t)
+		case string:
+			c = t
+		}
+		str, _ := args["s"].(string)
+		return fmt.Sprintf("pick %s %q", c, str), nil
 	case "dflt":
 		str, _ := args["s"].(string)
 		n, _ := args["n"].(int32)
@@ -116,6 +131,9 @@ func c02ArgsStream(o *Out, rng *Rng, n int) {
 				return arg{name, typ, fmt.Sprintf("%d", int64(v)), v}
 			}
 			return arg{name, typ, fmtFloatLit(v), v}
+		case "Color":
+			v := Pick(rng, []string{"RED", "GREEN", "BLUE"})
+			return arg{name, typ, v, v}
 		case "Int":
 			v := Pick(rng, []int64{0, 1, -1, 7, 2147483647})
 			return arg{name, typ, fmt.Sprint(v), float64(v)}
@@ -142,6 +160,7 @@ func c02ArgsStream(o *Out, rng *Rng, n int) {
 		{"mix", [][2]string{{"s", "String!"}, {"n", "Int"}, {"f", "Float"}}},
 		{"size", [][2]string{{"unit", "String!"}, {"n", "Int"}}},
 		{"dflt", [][2]string{{"s", "String"}, {"n", "Int"}}},
+		{"pick", [][2]string{{"c", "Color"}, {"s", "String"}}},
 	}
 	for i := 0; i < n; i++ {
 		f := Pick(rng, fields)
